@@ -6,7 +6,7 @@ import math
 import corr
 import dets
 import gen
-from common import Outcome, rng_for
+from common import Outcome, np, rng_for
 
 RULE_ADDENDA = ('streams of 4 300-5 200 updates; positions proved for the library defaults (C04d) replayed on the implementation')
 LEVEL = "proof"
@@ -230,7 +230,8 @@ def explained_by_other_cut_confidence(cls, p, xs):
     return None
 
 
-def check_spec(out, cls, p, xs, runners, label=""):
+def check_spec(out, cls, p, xs, runners, label="", feed=None):
+    """`feed`: the same numbers in another numeric TYPE (what the detector is given; the rule is evaluated on `xs`)"""
     fp = dets.full_params(cls, p)
     r = dets.Runner("a", cls, p)
     if r.det is None:
@@ -241,14 +242,14 @@ def check_spec(out, cls, p, xs, runners, label=""):
         spec = hddmw_spec(xs, fp["alpha_d"], fp["alpha_w"], fp["two_sided_test"], fp["lambda_"], fp["min_num_instances"])
     flagged = False
     for t, (x, want) in enumerate(zip(xs, spec), 1):
-        r.update(x)
+        r.update(x if feed is None else feed[t - 1])
         if want is None:
             out.count("spec_traces_ended_at_tie")
             break
         got = dets.flags(cls, r.det)
         flagged = flagged or any(got)
         if got != want:
-            rep = {"class": cls, "params": p, "stream": xs[:t], "step": t, "kind": "spec"}
+            rep = {"class": cls, "params": p, "stream": xs[:t], "step": t, "kind": "spec", "value_type": None if feed is None else type(feed[0]).__name__}
             other = cls == "HDDMW" and explained_by_other_cut_confidence(cls, p, xs[:t])
             if other:
                 # the verdict rule of the property holds with another admissible definition of the running cut point than the model's: correspondence, not the property
@@ -397,6 +398,16 @@ def run(out: Outcome) -> None:
             cut = rng.randint(n_long // 2, n_long - 300)
             p0, p1 = rng.choice([0.05, 0.2, 0.5]), rng.choice([0.1, 0.4, 0.9])
             check_spec(out, cls, p, [float(rng.random() < p0) for _ in range(cut)] + [float(rng.random() < p1) for _ in range(n_long - cut)], runners)
+    # 0/1 error indicators as they come out of a compact array (`np.uint8`, `np.int8`), over runs with MORE ones than the type can count (hundreds): the rule is about the
+    # values, whatever their numeric type
+    for k_t, cls in enumerate(("HDDMA", "HDDMA", "HDDMW")):
+        for dt in (np.uint8, np.int8):
+            p = gen.rand_params(rng, cls, small=False)
+            p = {**dets.full_params(cls, p), "two_sided_test": bool((k_t + out.seed) % 2) if cls == "HDDMA" and k_t == 0 else not bool((k_t + out.seed) % 2)}
+            p0 = rng.choice([0.3, 0.5, 0.7])
+            xs = [float(rng.random() < p0) for _ in range(rng.randint(700, 1000))] + [float(rng.random() < min(0.95, p0 + 0.3)) for _ in range(150)]
+            check_spec(out, cls, p, xs, runners, label=f"{np.dtype(dt).name}:", feed=[dt(int(v)) for v in xs])
+            out.count("narrow_dtype_long_runs")
     check_default_positions(out, runners)
     if "KF-C04-1" in out.findings:
         check_blocks(out, "HDDMW", {"alpha_d": 0.2, "alpha_w": 0.5, "lambda_": 0.1, "min_num_instances": 5}, 5, [])
